@@ -10,7 +10,10 @@ from vf.gen import qoptions as O
 
 RULE = ("case = (class, non-default constructor options, get_config before/"
         "after the first call, qnoise_factor via constructor or "
-        "update_qnoise_factor, probe tensors, TF seed). Deterministic part: for "
+        "update_qnoise_factor, optional post-construction mutation "
+        "(_set_trainable_parameter as layers do, attach to a QDense, assign a "
+        "documented modifiable attribute; before/after the first call), probe "
+        "tensors, TF seed). Deterministic part: for "
         "each of the 14 classes every single non-default option value on top of "
         "every alpha kind, plus a greedy pairwise-covering set of admissible "
         "option combinations (thorough: plus the full admissible product of every "
@@ -47,7 +50,9 @@ ROUTES = ["from_config", "get_quantizer_dict", "get_quantizer_legacy_dict",
 UNOBSERVABLE = {"var_name", "use_variables"}
 _REQ = (["lattice", "hyp", "registry", "call_first", "config_first",
          "orig_ok", "phase1_differs", "qnoise_zero", "qnoise_via_update",
-         "qnoise_via_update_variable", "list1_option",
+         "qnoise_via_update_variable", "list1_option", "mutate:trainable",
+         "mutate:qdense", "mutate:assign_symmetric", "mutate:assign_alpha",
+         "mutate_after_call", "mutate_before_call",
          "pts_keepdims"] + O.CLASSES +
         ["opt:%s.%s" % (c, p) for c in O.CLASSES for p, _ in O.SPEC[c]] +
         ["observable:%s.%s" % (c, p) for c in O.CLASSES for p, _ in O.SPEC[c]
@@ -106,12 +111,14 @@ _eval_memo = _Memo()
 _direct_memo = _Memo()
 
 
-def _observe_direct(cls, kw, probes, seed):
-  key = O.jkey([cls, kw, probes, seed])
+def _observe_direct(cls, kw, probes, seed, mutate=None):
+  key = O.jkey([cls, kw, probes, seed, mutate])
   if key not in _direct_memo:
     _direct_memo.bounded(6000)
     try:
-      _direct_memo[key] = O.observe(O.build(cls, kw), probes, seed)
+      _direct_memo[key] = O.observe(
+          O.build(cls, kw, {"mutate": mutate} if mutate else None), probes,
+          seed)
     finally:
       core.reset_globals()
   return _direct_memo[key]
@@ -122,7 +129,7 @@ class Ev(object):
   constructor (after the first call of the original iff call_first);
   observations of the rebuilt quantizers are taken lazily."""
 
-  def __init__(self, cls, kw, call_first, probes, seed, qn_update=False):
+  def __init__(self, cls, kw, call_first, probes, seed, post=None):
     self.cls, self.kw, self.probes, self.seed = cls, kw, probes, seed
     self.ctor = True
     self.detail = {}
@@ -130,7 +137,7 @@ class Ev(object):
     self._robs = {}
     self._fid = {}
     try:
-      self.q = O.build(cls, kw, qn_update)
+      self.q = O.build(cls, kw, post)
     except Exception as e:  # pylint: disable=broad-except
       self.ctor = False
       self.detail["ctor"] = repr(e)[:200]
@@ -197,11 +204,11 @@ class Ev(object):
     return self._fid[r]
 
 
-def evaluate(cls, kw, call_first, probes, seed, qn_update=False):
-  key = O.jkey([cls, kw, call_first, probes, seed, qn_update])
+def evaluate(cls, kw, call_first, probes, seed, post=None):
+  key = O.jkey([cls, kw, call_first, probes, seed, post])
   if key not in _eval_memo:
     _eval_memo.bounded()
-    _eval_memo[key] = Ev(cls, kw, call_first, probes, seed, qn_update)
+    _eval_memo[key] = Ev(cls, kw, call_first, probes, seed, post)
   return _eval_memo[key]
 
 
@@ -217,18 +224,23 @@ def _val_same(a, b):
     return False
 
 
-def _analyse(ctx, cls, kw, call_first, probes, seed, route, qn_update=False):
+def _analyse(ctx, cls, kw, call_first, probes, seed, route, post=None):
   """-> list of (sub_check, signature, detail, minimal_case)."""
   out = []
+  mut = (post or {}).get("mutate")
+  extra = {"mutation": O.mutation_name(mut)} if mut else {}
   for sig, detail, m in O.analyse(
       cls, kw, route,
-      lambda k: evaluate(cls, k, call_first, probes, seed, qn_update),
-      lambda k: _observe_direct(cls, k, probes, seed),
-      lambda sg: ctx.is_known(route, dict(sg, cls=cls, route=route))):
+      lambda k: evaluate(cls, k, call_first, probes, seed, post),
+      lambda k: _observe_direct(cls, k, probes, seed, mut),
+      lambda sg: ctx.is_known(route, dict(sg, cls=cls, route=route, **extra))):
+    sig = dict(sig, **extra)
+    if mut:
+      detail = "after %s: %s" % (O.jkey(mut), detail)
     out.append((route, dict(sg_order(cls, route, sig)), detail,
                 dict({"cls": cls, "kw": m, "call_first": call_first,
                       "probes": probes, "seed": seed},
-                     **({"qn_update": qn_update} if qn_update else {}))))
+                     **(post or {}))))
   return out
 
 
@@ -241,8 +253,8 @@ def sg_order(cls, route, sig):
 def oracle(ctx, case, stats=None):
   cls, kw = case["cls"], O.nondefault(case["cls"], case["kw"])
   cf, probes, seed = case["call_first"], case["probes"], case["seed"]
-  qnu = case.get("qn_update") or False
-  ev = evaluate(cls, kw, cf, probes, seed, qnu)
+  post = O.post_of(case)
+  ev = evaluate(cls, kw, cf, probes, seed, post)
   if stats is not None:
     stats["ctor"] = ev.ctor
     if ev.ctor:
@@ -262,7 +274,7 @@ def oracle(ctx, case, stats=None):
     return fails
   seen = set()
   for r in ROUTES:
-    for f in _analyse(ctx, cls, kw, cf, probes, seed, r, qnu):
+    for f in _analyse(ctx, cls, kw, cf, probes, seed, r, post):
       k = core.fkey(f[0], f[1])
       if k not in seen:
         seen.add(k)
@@ -305,6 +317,10 @@ def _labels(case, st):
       labs.append("qnoise_via_update_variable")
   if case["kw"].get("qnoise_factor") == 0.0:
     labs.append("qnoise_zero")
+  if case.get("mutate"):
+    labs.append("mutate:" + O.mutation_name(case["mutate"]))
+    labs.append("mutate_after_call" if case["mutate"].get("after_call")
+                else "mutate_before_call")
   if any(isinstance(v, list) and len(v) == 1 for v in case["kw"].values()):
     labs.append("list1_option")
   pts = case["kw"].get("post_training_scale")
@@ -350,6 +366,22 @@ def run(ctx):
                        "call_first": (i % 2 == 1) == (mode is True),
                        "probes": LATTICE_PROBES, "seed": LATTICE_SEED,
                        "qn_update": mode}, None))
+  # post-construction mutations on the small configurations of every class
+  j = 0
+  for c in cfgs:
+    if len(c["kw"]) > 2:
+      continue
+    for m in O.mutations(c["cls"]):
+      if m["kind"] == "assign" and m["attr"] in c["kw"] and (
+          c["kw"][m["attr"]] == m["value"]):
+        continue
+      j += 1
+      if m["kind"] != "trainable" and len(c["kw"]) > 1 and j % 2:
+        continue
+      cases.append(({"cls": c["cls"], "kw": c["kw"], "call_first": j % 4 < 2,
+                     "probes": LATTICE_PROBES, "seed": LATTICE_SEED,
+                     "mutate": dict(m, **({"after_call": True} if j % 2 else
+                                          {}))}, None))
   for case, single in ctx.shard(cases):
     if ctx.time_left() <= 0:
       ctx.labels["inconclusive_time"] += 1
@@ -379,6 +411,11 @@ def run(ctx):
             "call_first": draw(st_.booleans()),
             "probes": [draw(O.probe_strategy()), "r2"],
             "seed": draw(st_.integers(0, 2 ** 16))}
+    if draw(st_.integers(0, 2)) == 0:
+      m = dict(draw(st_.sampled_from(O.mutations(c["cls"]))))
+      if draw(st_.booleans()):
+        m["after_call"] = True
+      case["mutate"] = m
     if "qnoise_factor" in c["kw"] and draw(st_.booleans()):
       case["qn_update"] = draw(st_.sampled_from([True, "var"]))
     return case
